@@ -712,6 +712,113 @@ def r_cache(prog, R):
             r.viol(k, f.name, f.loc(el), "cache_invalidated is cleared without knowing that cache_str was rebuilt: after one allocation failure the combined string stays NULL/0 on every later call although the strings are still there (ares_dns_rr_get_bin on TXT data reports nothing)")
 
 
+def r_class(prog, R):
+    import evalx
+    r = R.rule("R-C04-CLASS", "the class check never rejects what a reference decoder accepts: a record of a type the library does not decode is taken with any class value (TSIG/TKEY use "
+               "class ANY, SIG(0) has no meaningful class), IN/CH/HS/NONE are accepted for every type, and ANY for every question", floor=3,
+               analysis="exact evaluation of ares_dns_class_isvalid's CFG (evalx.run_cfg, switch included) over all record-type enumerators x boundary class values x {question, record}")
+    f = prog.func("ares_dns_class_isvalid")
+    if not r.require(len(f.params) == 3, "ares_dns_class_isvalid no longer takes (class, type, is_query)"):
+        return
+    cn, tn, qn = [p_["n"] for p_ in f.params]
+    types = sorted({v for n_, (en, v) in prog.enumconst.items() if en == "ares_dns_rec_type_t"})
+    raw = prog.enumconst.get("ARES_REC_TYPE_RAW_RR", (None, None))[1]
+    if not r.require(raw is not None and len(types) >= 20, "record type enumerators not found"):
+        return
+    classes = [0, 1, 2, 3, 4, 5, 253, 254, 255, 256, 65535]
+    bad = {"raw": None, "std": None, "qany": None}
+    n = 0
+    try:
+        for t in types:
+            for c in classes:
+                for q in (0, 1):
+                    res = evalx.run_cfg(f, {cn: c, tn: t, qn: q})
+                    if res[0] != "ret":
+                        raise evalx.Unknown("path left open at block %s" % (res[1],))
+                    ok = name_of_const(res[1].get("e")) == "ARES_TRUE"
+                    n += 1
+                    if t == raw and not ok and bad["raw"] is None:
+                        bad["raw"] = (t, c, q, res[1])
+                    if c in (1, 3, 4, 254) and not ok and bad["std"] is None:
+                        bad["std"] = (t, c, q, res[1])
+                    if c == 255 and q == 1 and not ok and bad["qany"] is None:
+                        bad["qany"] = (t, c, q, res[1])
+    except evalx.Unknown as e:
+        r.broke("ares_dns_class_isvalid not interpretable: %s" % e)
+        return
+    r.info["tuples_evaluated"] = n
+    texts = {"raw": ("undecoded type => any class", "a record of a type the library does not decode (kept as a raw record) with class %d is rejected: ares_dns_record_rr_add fails and the whole message "
+                     "is refused although it is well formed (TSIG and TKEY records carry class ANY)"),
+             "std": ("IN/CH/HS/NONE accepted for every type", "class %d is rejected for record type %d"),
+             "qany": ("ANY accepted in questions", "QCLASS * (%d) is rejected in a question")}
+    for key, (k, msg) in texts.items():
+        if bad[key]:
+            t, c, q, el = bad[key]
+            r.viol(k, f.name, f.loc(el), (msg % ((c, t) if key == "std" else (c,))) + " [type=%d class=%d is_query=%d]" % (t, c, q))
+        else:
+            r.ok(k, f.loc(f.ln), "%d tuples" % n)
+
+
+def r_namelen(prog, R):
+    import linear as L
+    r = R.rule("R-C04-NAMELEN", "a presentation name the parser can report is accepted again by the name splitter that every writer and ares_dns_record_duplicate use: labels of 1..63 octets and "
+               "a name of up to 255 octets on the wire (sum of label lengths + one length octet per label + the root octet) pass its magnitude checks", floor=2,
+               analysis="linear normal form of the rejecting guards, evaluated at the legal maxima (label 63; labels + count = 254)")
+    f = prog.func("ares_split_dns_name")
+    n = 0
+    cmpf = {">": lambda a, b: a > b, ">=": lambda a, b: a >= b, "<": lambda a, b: a < b, "<=": lambda a, b: a <= b}
+    for b in f.blocks.values():
+        br = f.branch(b)
+        if not br:
+            continue
+        for pol, tgt in ((True, br[1]), (False, br[2])):
+            if tgt is None:
+                continue
+            blk = f.blocks[tgt]
+            if not any(el["k"] == "asg" and is_var(strip(el["e"]["l"]), "status") and (name_of_const(el["e"].get("r")) or "ARES_SUCCESS") != "ARES_SUCCESS" for el in blk.els):
+                continue
+            ats = atoms(br[0], pol)
+            for c, p_ in ats:
+                op, l, rr = norm_cmp(c, p_)
+                if rr is None or op not in cmpf or const_val(rr) is None:
+                    continue
+                d = L.lin(l)
+                K = const_val(rr)
+                names = [x for x in d if x != ""]
+                cnt = [x for x in names if x.startswith("ares_array_len")]
+                oth = [x for x in names if not x.startswith("ares_array_len")]
+                if len(cnt) == 1 and len(oth) == 1 and d[cnt[0]] == 1 and d[oth[0]] == 1:
+                    n += 1
+                    k = "name of 255 wire octets accepted"
+                    # labels + count = 254  <=>  wire length 255, the RFC 1035 maximum
+                    if cmpf[op](254 + d.get("", 0), K):
+                        r.viol(k, f.name, f.loc(b.term.get("ln", f.ln)), "ares_split_dns_name fails when '%s %s %d': with %s + label count = 254 (a name of exactly 255 octets on the wire, the RFC 1035 maximum, "
+                               "which the parser accepts and reports) this holds, so ares_dns_write / ares_dns_record_duplicate / a new query for that name fail with EBADNAME" % (L.show(d), op, K, oth[0]))
+                    else:
+                        r.ok(k, f.loc(b.term.get("ln", f.ln)))
+                elif len(names) == 1 and not cnt and d[names[0]] == 1 and len(ats) <= 2:
+                    v = strip(l)
+                    if not is_var(v):
+                        continue
+                    # a label length: filled from ares_buf_len
+                    defs = [x for x in codecrules._assignments(f, v["n"])]
+                    isl = False
+                    for x in defs:
+                        cc = strip(x[3])
+                        if cc is not None and cc.get("k") == "call":
+                            cc = f.call_by_id(cc["id"])[2] if cc.get("ref") else cc
+                            isl = isl or cc.get("callee") == "ares_buf_len"
+                    if not isl:
+                        continue
+                    n += 1
+                    k = "label of 63 octets accepted"
+                    if cmpf[op](63 + d.get("", 0), K) or cmpf[op](1 + d.get("", 0), K):
+                        r.viol(k, f.name, f.loc(b.term.get("ln", f.ln)), "ares_split_dns_name fails when '%s %s %d', which holds for a legal label length (1..63)" % (L.show(d), op, K))
+                    else:
+                        r.ok(k, f.loc(b.term.get("ln", f.ln)))
+    r.require(n >= 2, "magnitude guards of ares_split_dns_name not recognised (%d)" % n)
+
+
 def run(prog, R, tier):
     R.assume("tables/iana.json reproduces the IANA registries and RFC bit layouts correctly (written from the RFCs, not from the code)")
     r_bits(prog, R)
@@ -724,3 +831,5 @@ def run(prog, R, tier):
     codecrules.r_limit(prog, R, "R-C04-LIMIT")
     codecrules.r_pure(prog, R, "R-C04-PURE")
     r_zerolen(prog, R)
+    r_class(prog, R)
+    r_namelen(prog, R)
